@@ -1,7 +1,7 @@
 #!/bin/bash
 # usage: tools/try_patch.sh <patch.diff> <Cxx> [more Cxx...]   (VERIF_TIER=quick|thorough)
 # Applies the patch to /repo's working tree, runs the listed checks, reverts.
-P="$1"; shift
+P="$(realpath "$1")"; shift
 cd /repo || exit 9
 git diff --quiet || { echo "repo dirty"; exit 9; }
 git apply "$P" || { echo "patch does not apply"; exit 9; }
